@@ -207,6 +207,51 @@ theorem zero_width_rejected_as_replay (H : Bytes → Bytes) (post : Bool) (n : N
 
 example : climb id true 3 5 ⟨[1], 7, 7⟩ [⟨[2], 1, 7⟩] = .fail true := by decide
 
+/-- **The range check is on the numbers, not on a wrapped width.**  A range is proper exactly when
+`0 < upper` and `lower < upper` over the naturals the `uint64` bounds denote. -/
+theorem isValidRange_spec (hr : HashRange) : hr.isValid = true ↔ 0 < hr.upper ∧ hr.lower < hr.upper :=
+  isValid_spec hr
+
+/-- An inverted range (`lower > upper`) met by the loop is a replay like an empty one. -/
+theorem inverted_range_rejected_as_replay (H : Bytes → Bytes) (post : Bool) (n : Nat) (idx : Int)
+    (t : HashRange) (sibs : List HashRange)
+    (h : t.upper < t.lower ∨ (∃ s rest, sibs = s :: rest ∧ s.upper < s.lower)) :
+    climb H post (n + 1) idx t sibs = .fail true := by
+  apply zero_width_rejected_as_replay
+  rcases h with h | ⟨s, rest, e, hs⟩
+  · exact Or.inl (by omega)
+  · exact Or.inr ⟨s, rest, e, by omega⟩
+
+/-- Why the check must not be written as a `uint64` width (`Upper != 0 && Upper-Lower > 0`): with
+wrapping subtraction that test only excludes `lower = upper`, so it lets every inverted range with
+a non-zero upper bound through — the hiding place for a relay counted twice in a claimant-built
+tree. -/
+theorem uint64_width_check_accepts_inverted (hr : HashRange) (hl : hr.lower < two64) (hu : hr.upper < two64)
+    (hinv : hr.upper < hr.lower) (h0 : hr.upper ≠ 0) : wrapWidthValid hr = true ∧ hr.isValid = false := by
+  refine ⟨(wrapWidthValid_iff hr hl hu).mpr ⟨h0, by omega⟩, (isValid_false_iff hr).mpr (by omega)⟩
+
+example : wrapWidthValid ⟨[], 9, 7⟩ = true ∧ HashRange.isValid ⟨[], 9, 7⟩ = false := by decide
+
+/-- `MsgProof.ValidateBasic` (merkle part): with at least three levels, a target whose range is not
+proper — empty, inverted, or with upper bound 0 — gets the range error; what passes is proper. -/
+theorem basic_rejects_improper_target (p : MerkleProof) (h3 : 3 ≤ p.hashRanges.length) :
+    (¬ (0 < p.target.upper ∧ p.target.lower < p.target.upper) → msgProofBasic p = .range) ∧
+    (msgProofBasic p = .pass → 0 < p.target.upper ∧ p.target.lower < p.target.upper) := by
+  have hlen : ¬ p.hashRanges.length < 3 := by omega
+  constructor
+  · intro h
+    have hv : p.target.isValid = false := by
+      cases hc : p.target.isValid
+      · rfl
+      · exact absurd ((isValid_spec p.target).mp hc) h
+    simp [msgProofBasic, hlen, hv]
+  · intro h
+    cases hc : p.target.isValid
+    · simp [msgProofBasic, hlen, hc] at h
+    · exact (isValid_spec p.target).mp hc
+
+example : msgProofBasic ⟨0, [⟨[], 0, 1⟩, ⟨[], 0, 1⟩, ⟨[], 0, 1⟩], ⟨[], 9, 7⟩⟩ = .range := by decide
+
 /-- The same at any depth: if `l` iterations pass and the range reached then (or its sibling) is
 empty, `Validate` returns `(false, true)` whatever follows. -/
 theorem zero_width_at_any_level (H : Bytes → Bytes) (post : Bool) (p : MerkleProof) (root : HashRange)
